@@ -147,7 +147,8 @@ class InterceptingLLUDPProxyProtocol(UDPProxyProtocol):
 
         # This message is owned by an async handler, drop it so it doesn't get
         # sent with the normal flow.
-        if message.queued:
+        # (unless whoever took it already dropped or sent the original themselves)
+        if message.queued and not message.finalized:
             region.circuit.drop_message(message)
 
         # Shouldn't mutate the message past this point, so log it now.
